@@ -39,9 +39,53 @@ func isConnWrite(call ssa.CallInstruction) bool {
 func replyFuncs(p *Prog, req *types.Named) map[*ssa.Function]bool {
 	out := map[*ssa.Function]bool{}
 	for _, m := range p.methodsOf(req) {
-		if callsDirectly(m, isConnWrite) {
-			out[m] = true
+		if !callsDirectly(m, isConnWrite) {
+			continue
 		}
+		// a transport helper: it queues a sender that calls an encoder it was handed as a func
+		// value; the reply functions are then the methods of the request that hand it a func literal
+		// (they decide what is encoded: the frame, its stream id, the codec call)
+		hasEncoderParam := false
+		for i, par := range m.Params {
+			if _, isSig := par.Type().Underlying().(*types.Signature); isSig && i > 0 {
+				hasEncoderParam = true
+			}
+		}
+		var wrappers []*ssa.Function
+		if hasEncoderParam {
+			for _, w := range p.methodsOf(req) {
+				if w == m {
+					continue
+				}
+				passesLiteral := false
+				eachCall(w, func(c ssa.CallInstruction) {
+					if c.Common().StaticCallee() != m {
+						return
+					}
+					for _, a := range c.Common().Args {
+						if ct, ok := a.(*ssa.ChangeType); ok {
+							a = ct.X // converted to a named func type
+						}
+						switch a.(type) {
+						case *ssa.MakeClosure:
+							passesLiteral = true
+						case *ssa.Function:
+							passesLiteral = a.(*ssa.Function).Parent() == w
+						}
+					}
+				})
+				if passesLiteral {
+					wrappers = append(wrappers, w)
+				}
+			}
+		}
+		if len(wrappers) > 0 {
+			for _, w := range wrappers {
+				out[w] = true
+			}
+			continue
+		}
+		out[m] = true
 	}
 	return out
 }
